@@ -9,8 +9,11 @@
 //!    and `bincode` (eight bytes arrive as `i64`).
 //!  * direct oracles on the implementation: exact integer written (independent calendar + i128), round
 //!    trip at the module's precision, acceptance exactly inside the representable range, no panic.
-//!  * the string forms (dates, times, naive and zone-aware date-times) are compared on the implementation
-//!    only: value after a trip through `serde_json` and through `bincode`.
+//!  * the string forms (dates, times, naive and zone-aware date-times): the text `Serialize` writes (as
+//!    `serde_json` stores it) and what `Deserialize` makes of that text and of single-edit mutations of it are
+//!    compared with the models of the writer / reader each impl names (`sd.nd.*`, `sd.nt.*`, `sd.ndt.*`,
+//!    `sd.dt.*`; Model/SerdeStr.lean); the value after a trip through `serde_json` and through `bincode` is
+//!    judged on the implementation by direct oracles.
 use super::c01::{day_num, gen_date, yof, MAX_YEAR, MIN_YEAR};
 use super::c06::raw;
 use crate::ctx::*;
@@ -682,7 +685,74 @@ const F_B: &str = "serialized zone-aware value near the range end is not readabl
 /// F22: nanosecond field >= 10^9 on a second other than :59 prints as the following second
 const F_C: &str = "leap-second representation on a second other than :59 does not round-trip";
 
-// ---- string forms: implementation only ----------------------------------------------------------------
+// ---- string forms ------------------------------------------------------------------------------------
+/// a single edit of a serialized text
+fn mutate_text(c: &mut Ctx, text: &str) -> String {
+    let mut b = text.as_bytes().to_vec();
+    if b.is_empty() {
+        return "0".to_string();
+    }
+    let k = c.rng.below(b.len() as u64) as usize;
+    match c.rng.below(6) {
+        0 => {
+            b.remove(k);
+        }
+        1 => b.insert(k, *c.rng.pick(b"0159 :-+TZtz.")),
+        2 => b[k] = *c.rng.pick(b"0123456789:-+ TZtz."),
+        3 => b = String::from_utf8(b).unwrap().replace('T', " ").into_bytes(),
+        4 => b.insert(0, b' '),
+        _ => b.extend_from_slice(*c.rng.pick(&[&b" "[..], &b"Z"[..], &b".5"[..], &b":00"[..], &b"x"[..]])),
+    }
+    String::from_utf8(b).unwrap()
+}
+/// correspondence for one value of a naive string-form type: the text `Serialize` produces (as serde_json
+/// stores it; the texts are plain ASCII, so the JSON string is the text between the quotes) against the model
+/// of the writer (`<pfx>.ser`), and `Deserialize` on that text — when `edit` is set also on a
+/// single-edit mutation of it — against the model of `visit_str` (`<pfx>.de`)
+fn str_corr<T: Serialize + for<'a> Deserialize<'a>>(
+    c: &mut Ctx,
+    pfx: &str,
+    arg: &str,
+    v: &T,
+    show: fn(&T) -> String,
+    edit: bool,
+) {
+    let text = match guard(|| serde_json::to_string(v)) {
+        Ok(Ok(s)) => {
+            let t = s.trim_matches('"').to_string();
+            c.op(&format!("{pfx}.ser {arg}"), &hex(t.as_bytes()));
+            t
+        }
+        Ok(Err(_)) => {
+            c.op(&format!("{pfx}.ser {arg}"), "err");
+            return;
+        }
+        Err(()) => {
+            c.op(&format!("{pfx}.ser {arg}"), "panic");
+            return;
+        }
+    };
+    let mut texts = vec![text.clone()];
+    if edit {
+        texts.push(mutate_text(c, &text));
+    }
+    for t in &texts {
+        let q = serde_json::to_string(t).unwrap();
+        let r = guard(|| serde_json::from_str::<T>(&q));
+        let shown = match &r {
+            Ok(Ok(x)) => format!("ok {}", show(x)),
+            Ok(Err(_)) => "err".to_string(),
+            Err(()) => "panic".to_string(),
+        };
+        c.op(&format!("{pfx}.de {}", hex(t.as_bytes())), &shown);
+    }
+}
+fn show_date(d: &NaiveDate) -> String {
+    format!("{}", yof(d))
+}
+fn show_time(t: &NaiveTime) -> String {
+    format!("{} {}", t.num_seconds_from_midnight(), t.nanosecond())
+}
 fn via_json<T: Serialize, U: for<'a> Deserialize<'a>>(v: &T) -> Result<Result<U, String>, ()> {
     guard(|| {
         let s = serde_json::to_string(v).map_err(|e| format!("ser: {e}"))?;
@@ -935,13 +1005,17 @@ fn run_strings(c: &mut Ctx, special: &[(i64, u32)]) {
     // NaiveDate
     same(c, "NaiveDate", &NaiveDate::MIN);
     same(c, "NaiveDate", &NaiveDate::MAX);
-    for _ in 0..n {
+    str_corr(c, "sd.nd", &show_date(&NaiveDate::MIN), &NaiveDate::MIN, show_date, true);
+    str_corr(c, "sd.nd", &show_date(&NaiveDate::MAX), &NaiveDate::MAX, show_date, true);
+    for i in 0..n {
         let d = gen_date(c);
         same(c, "NaiveDate", &d);
+        str_corr(c, "sd.nd", &show_date(&d), &d, show_date, i % 4 == 0);
     }
     // NaiveTime
-    for _ in 0..n {
+    for i in 0..n {
         let t = gen_time(c);
+        str_corr(c, "sd.nt", &show_time(&t), &t, show_time, i % 4 == 0);
         if is_strict(&t) {
             c.count(if t.nanosecond() >= 1_000_000_000 { "time:leap-second" } else { "time:regular" });
             same(c, "NaiveTime", &t);
@@ -958,6 +1032,8 @@ fn run_strings(c: &mut Ctx, special: &[(i64, u32)]) {
     // NaiveDateTime
     same(c, "NaiveDateTime", &NaiveDateTime::MIN);
     same(c, "NaiveDateTime", &NaiveDateTime::MAX);
+    str_corr(c, "sd.ndt", &show_ndt(&NaiveDateTime::MIN), &NaiveDateTime::MIN, show_ndt, true);
+    str_corr(c, "sd.ndt", &show_ndt(&NaiveDateTime::MAX), &NaiveDateTime::MAX, show_ndt, true);
     for i in 0..n {
         let nd = if i < special.len() {
             match DateTime::from_timestamp(special[i].0, special[i].1) {
@@ -967,6 +1043,7 @@ fn run_strings(c: &mut Ctx, special: &[(i64, u32)]) {
         } else {
             gen_ndt(c, special)
         };
+        str_corr(c, "sd.ndt", &show_ndt(&nd), &nd, show_ndt, i % 4 == 0);
         if is_strict(&nd.time()) {
             same(c, "NaiveDateTime", &nd);
         } else {
@@ -1188,6 +1265,6 @@ pub fn run(c: &mut Ctx) {
     // ---- TimeDelta, weekday and month names ----------------------------------------------------------
     run_delta(c);
     run_names(c);
-    // ---- string forms (implementation only) ----------------------------------------------------------
+    // ---- string forms --------------------------------------------------------------------------------
     run_strings(c, &special);
 }
